@@ -119,6 +119,7 @@ func runRecovered(c *driver.Ctx, rng *rand.Rand, caseNo int64) {
 		st.FailAt(fault, errors.New("injected transient storage error"))
 	}
 	cfg := qcfg{Persistent: true, Sizer: "requests", Capacity: int64(1 + rng.Intn(k+1)), Consumers: 1 + rng.Intn(2), Block: true}
+	cfg.StartCtxEnds = rng.Intn(3) == 0
 	if rng.Intn(3) == 0 {
 		cfg.Capacity = 1 // producers stay blocked until the whole backlog is gone
 	}
